@@ -64,6 +64,8 @@ func c20Inputs() []c20Input {
 		{"lp-notags", "lineprotocol", "mem f1=7i,f1s=\"m2\",message=\"from lp\",ts=\"2021-01-02 03:04:05\" 1600000000123456789\n"},
 		{"lp-notime", "lineprotocol", "disk,t=x f1=1i,f1s=\"m3\",ts=\"nonsense\"\n"},
 		{"lp-two-points", "lineprotocol", "first f1=1i,f1s=\"a\" 1600000000000000000\nsecond f1=2i 1600000001000000000\n"},
+		{"lp-leading-comment", "lineprotocol", "# a comment line\n\nlate,host=h f1=4i,f1s=\"m4\",ts=\"2021-01-02 03:04:05\" 1600000002000000000\n"},
+		{"lp-newline-in-string", "lineprotocol", "multi f1=5i,f1s=\"m5\",message=\"line one\nline two\" 1600000003000000000\n"},
 	}
 }
 
@@ -101,7 +103,7 @@ func c20Expected(scripts map[string]string, main string, in c20Input) (pt *c20Po
 		for _, t := range pts[0].Tags() {
 			tags[string(t.Key)] = string(t.Value)
 		}
-		exp.Clock = !strings.Contains(strings.TrimSpace(strings.SplitN(in.Data, "\n", 2)[0]), " 16")
+		exp.Clock = pts[0].Time().Unix() == 0 // no timestamp in the input: the runner supplies the wall clock
 		input.InitPt(p, string(pts[0].Name()), tags, map[string]any(f), pts[0].Time())
 	}
 	t0 := p.Time
@@ -187,7 +189,7 @@ func c20Parse(out, format string) (pt *c20Point, hasBlock bool, errLine string, 
 			pt.Fields = m.Fields
 		}
 	default:
-		line := strings.TrimSpace(strings.SplitN(strings.TrimLeft(body, "\r\n"), "\n", 2)[0])
+		line := strings.TrimSpace(body) // one point; a string field may contain newlines
 		pts, err := models.ParsePointsString(line)
 		if err != nil || len(pts) != 1 {
 			return nil, true, errLine, fmt.Errorf("output block is not one line-protocol point: %q (%v)", line, err)
@@ -334,6 +336,12 @@ func c20One(w *run.Worker, bin string, c c20Case, in c20Input) {
 		}
 		w.Violate("C20:no-output:"+cfg, fmt.Sprintf("library: success, measurement %q\n%s", exp.Meas, desc), c)
 	case perr != nil:
+		for _, tv := range exp.Tags {
+			if c.Output == "lineprotocol" && strings.Contains(tv, "\n") {
+				w.Note("unspecified_cells_skipped", 1) // a tag value with a newline has no line-protocol form
+				return
+			}
+		}
 		w.Violate("C20:unparsable-output:"+cfg, perr.Error()+"\n"+desc, c)
 	default:
 		if msg := c20Compare(exp, got, c.Output, r); msg != "" {
@@ -442,7 +450,7 @@ func init() {
 		ID:    "C20",
 		Level: "model_checking",
 		Rule: "every script of <=2 (thorough <=3) statements over 16 statements (add_key with int/str/float, set_tag, drop_key, rename, set_measurement literal and from a key with delete, default_time with and without zone, use of a sibling, exit, a run-time error, a load error, cast) " +
-			"x 5 inputs (text; line protocol with tags, without tags, without timestamp, with two points) x {workspace directory with .p/.ppl siblings, a non-script file and a directory named like a script; single file} x {json, lineprotocol} x {run, check only}, through the real binary " +
+			"x 7 inputs (text; line protocol with tags, without tags, without timestamp, with two points, with leading comment and blank lines, with a newline inside a string field) x {workspace directory with .p/.ppl siblings, a non-script file and a directory named like a script; single file} x {json, lineprotocol} x {run, check only}, through the real binary " +
 			"(quick: every script with a rotating 1/13 of the input x configuration grid; thorough: the full grid for <=2 statements); oracle: stdout after the marker parsed back and compared with the same script and input run through the library API (measurement, tags, fields, time), errors reported and no output block, check-only prints nothing",
 		Assumptions: []string{"the influx line-protocol codec is trusted for parsing input and output", "text input: measurement default_name is pinned; time without an explicit timestamp is accepted within the invocation's wall-clock bracket +-2 s"},
 		Run:            c20Run,
